@@ -4,9 +4,11 @@ sources + flags + arguments) of the quick and thorough tiers.  DESIGN.md §4."""
 CHECKS = {}
 
 
-def tree_job(kind, name, n, iters=0, tear=0, inv=1, san='', unpacked=False, deadline=None, uchar=False):
+def tree_job(kind, name, n, iters=0, tear=0, inv=1, san='', unpacked=False, deadline=None, uchar=False, pack2=False):
     defs = ['-DTREE_%s' % kind.upper()]
-    bn = '%s%s%s%s' % (kind, '-asan' if san else '', '-unpacked' if unpacked else '', '-uchar' if uchar else '')
+    bn = '%s%s%s%s%s' % (kind, '-asan' if san else '', '-unpacked' if unpacked else '', '-uchar' if uchar else '', '-pack2' if pack2 else '')
+    if pack2:
+        defs.append('-DTREE_PACK2')  # nodes at addresses that are 2 modulo 4 (the red-black node promises 2-byte alignment only)
     if unpacked:
         defs.append('-DA_SIZE_POINTER=1')
     if uchar:
@@ -35,12 +37,14 @@ def c02_jobs(tier):
         return [tree_job('rbt', 'rbt-packed-n15', 15, deadline=100),
                 tree_job('rbt', 'rbt-packed-asan-n11', 11, san='asan', deadline=100),
                 tree_job('rbt', 'rbt-unpacked-n12', 12, unpacked=True, deadline=100),
-                tree_job('rbt', 'rbt-unpacked-uchar-n10', 10, unpacked=True, uchar=True, deadline=100)]
+                tree_job('rbt', 'rbt-unpacked-uchar-n10', 10, unpacked=True, uchar=True, deadline=100),
+                tree_job('rbt', 'rbt-pack2-n12', 12, pack2=True, deadline=100)]
     return [tree_job('rbt', 'rbt-packed-n24', 24, deadline=2400),
             tree_job('rbt', 'rbt-packed-asan-n17', 17, san='asan', deadline=2400),
             tree_job('rbt', 'rbt-unpacked-n22', 22, unpacked=True, deadline=2400),
             tree_job('rbt', 'rbt-unpacked-asan-n16', 16, unpacked=True, san='asan', deadline=2400),
-            tree_job('rbt', 'rbt-unpacked-uchar-n18', 18, unpacked=True, uchar=True, deadline=2400)]
+            tree_job('rbt', 'rbt-unpacked-uchar-n18', 18, unpacked=True, uchar=True, deadline=2400),
+            tree_job('rbt', 'rbt-pack2-n18', 18, pack2=True, deadline=2400)]
 
 
 def c03_jobs(tier):
@@ -50,13 +54,15 @@ def c03_jobs(tier):
                 tree_job('avl', 'avl-iter-tear-asan-n11', 11, 1, 1, 0, san='asan', deadline=100),
                 tree_job('rbt', 'rbt-iter-tear-asan-n10', 10, 1, 1, 0, san='asan', deadline=100),
                 tree_job('avl', 'avl-unpacked-iter-tear-n11', 11, 1, 1, 0, unpacked=True, deadline=100),
-                tree_job('rbt', 'rbt-unpacked-iter-tear-n10', 10, 1, 1, 0, unpacked=True, deadline=100)]
+                tree_job('rbt', 'rbt-unpacked-iter-tear-n10', 10, 1, 1, 0, unpacked=True, deadline=100),
+                tree_job('rbt', 'rbt-pack2-iter-tear-n10', 10, 1, 1, 0, pack2=True, deadline=100)]
     return [tree_job('avl', 'avl-iter-tear-n23', 23, 1, 1, 0, deadline=2400),
             tree_job('rbt', 'rbt-iter-tear-n20', 20, 1, 1, 0, deadline=2400),
             tree_job('avl', 'avl-iter-tear-asan-n17', 17, 1, 1, 0, san='asan', deadline=2400),
             tree_job('rbt', 'rbt-iter-tear-asan-n15', 15, 1, 1, 0, san='asan', deadline=2400),
             tree_job('avl', 'avl-unpacked-iter-tear-n19', 19, 1, 1, 0, unpacked=True, deadline=2400),
-            tree_job('rbt', 'rbt-unpacked-iter-tear-n17', 17, 1, 1, 0, unpacked=True, deadline=2400)]
+            tree_job('rbt', 'rbt-unpacked-iter-tear-n17', 17, 1, 1, 0, unpacked=True, deadline=2400),
+            tree_job('rbt', 'rbt-pack2-iter-tear-n15', 15, 1, 1, 0, pack2=True, deadline=2400)]
 
 
 TREE_RULE = ('explicit-state BFS to a fixpoint over the real %s: a state is the tree shape with the stored balance/colour bits '
@@ -415,7 +421,7 @@ CHECKS['C12'] = {
              'thorough: the full product kp,kd in {0,1/2,2} x ki in {0,1/2,1} x 4 integrator-limit pairs x 4 output-limit pairs = 432 sets) from EVERY reachable state EVERY step (mode in {run,pos,inc}) x (set-point, feedback) in {-2,0,1}^2 (thorough {-3,-1,0,2}^2) and zero is executed; '
              'all quantities are dyadic so the arithmetic is exact and the BFS reaches a FIXPOINT (histories of any length). Oracle after every step: output within limits, state finite, integrator never moves further beyond its clamp, inside the clamp it advances by exactly ki*err, beyond the clamp it holds unless the error points inward, '
              'positional and incremental outputs equal the difference equations exactly, zero restores the initial state. A shadow pair (positional + incremental controller fed the same inputs) must coincide for as long as no limit has been active. '
-             'Single-neuron controller: depth-bounded BFS (4 steps quick, 5 thorough) from 4 weight vectors incl. all-zero x 2 output gains; fuzzy controller: depth-bounded BFS (3 / 4 steps) over 6 rule bases (3x3 shoulder triangles with and without a kp table, an unsorted 3x3 table, 5x5 trapezoid shoulders, 3 wide triangles with 3 simultaneously active sets, the 7x7 base of test/pid_fuzzy.h) x ALL SEVEN operators x parameter sets, scratch buffer of exactly A_PID_FUZZY_BFUZZ(active) bytes between canaries: '
+             'Single-neuron controller: depth-bounded BFS (4 steps quick, 5 thorough) from 4 weight vectors incl. all-zero x 2 output gains; fuzzy controller: depth-bounded BFS (3 / 4 steps) over 7 rule bases (two huge ramps whose rules fire with total strength around 1e-16, 3x3 shoulder triangles with and without a kp table, an unsorted 3x3 table, 5x5 trapezoid shoulders, 3 wide triangles with 3 simultaneously active sets, the 7x7 base of test/pid_fuzzy.h) x ALL SEVEN operators x parameter sets, scratch buffer of exactly A_PID_FUZZY_BFUZZ(active) bytes between canaries: '
              'output within limits, every field and scheduled gain finite, gains within base + [min,max] of the consequents, step equations with the gains scheduled for that step. distinct_nontrivial = distinct reachable controller states.'),
     'assumptions': ['dyadic gains/limits/inputs: every floating-point operation of the plain controller is exact, so == comparisons are sound; the fuzzy step is compared within 16 ulp of the term magnitude because scheduled gains are weighted means',
                     'exactly on a clamp (sum == summax or sum == summin) either holding or integrating is accepted: code comment and header formula differ there', 'the neuron controller is checked for limits, finiteness, cache updates and zeroing, not against the header formula (the statement names the equations of the positional and incremental forms)',
@@ -441,7 +447,7 @@ CHECKS['C13'] = {
     'rule': ('bounded-exhaustive enumeration against an independent long-double reference of the documented shapes. Membership functions: all 13 kinds; EVERY parameter tuple a<=b<=c<=d from {-2,-1,-1/2,0,1,1.5,3} INCLUDING ties for tri/trap/lins/linz, non-zero widths for the smooth kinds (3 widths x 7 centres, bell exponents 1..3, slopes +-1,+-4), equal slopes and ordered centres for dsig; '
              'x = every break point, one ulp on either side, quarter points between break points, +-7.5, +-1e3. Per evaluation: value in [0,1] and not NaN, equal to the documented piecewise shape (4 ulp piecewise, 64 ulp transcendental; the reference is continuous, so the +-1 ulp points check continuity), exactly 1 on the core (incl. a peak that coincides with a foot), flank monotonicity between neighbouring lattice points, dispatcher == specific function (also for the terminator and out-of-range kinds), s+z == 1 and lins+linz == 1. '
              'Operators: all pairs from {0,1/16,...,1}^2 for the seven operators: range, commutativity, monotone in each argument, cap <= min, cup >= max, the compensatory operator between algebraic product and algebraic sum, boundary cases at 0 and 1, definition, not involutive, selector. '
-             'Gain scheduling: 8 rule bases (each of the kp, ki, kd tables absent in one of them; one table not sorted by position, so that active sets are not neighbours in table order) (incl. the degenerate shoulder triangles of test/pid_fuzzy.h, 3 simultaneously active sets, gaussian/bell sets) x 7 operators x a 41x41 (81x81 thorough) (e, ec) lattice spanning beyond the universe: corrections equal the weighted mean of the active consequents, lie between their min and max, stay finite when the total firing strength is zero, equal the base gains when no rule is active; scratch buffer of exactly A_PID_FUZZY_BFUZZ(active) bytes between canaries. Real types double, float and long double (-DA_SIZE_REAL=16: sizeof(a_real) != 2*sizeof(unsigned), which the buffer layout must not assume).'),
+             'Gain scheduling: 9 rule bases (two huge ramps whose rules fire with total strength around 1e-16; each of the kp, ki, kd tables absent in one of them; one table not sorted by position, so that active sets are not neighbours in table order) (incl. the degenerate shoulder triangles of test/pid_fuzzy.h, 3 simultaneously active sets, gaussian/bell sets) x 7 operators x a 41x41 (81x81 thorough) (e, ec) lattice spanning beyond the universe: corrections equal the weighted mean of the active consequents, lie between their min and max, stay finite when the total firing strength is zero, equal the base gains when no rule is active; scratch buffer of exactly A_PID_FUZZY_BFUZZ(active) bytes between canaries. Real types double, float and long double (-DA_SIZE_REAL=16: sizeof(a_real) != 2*sizeof(unsigned), which the buffer layout must not assume).'),
     'assumptions': ['a set is active when its degree exceeds the real type epsilon (the controller\'s own threshold)', 'the compensatory operator a_fuzzy_equ is neither an intersection nor a union; it is bounded by the algebraic product and sum, not by min/max'],
     'design_ref': '§4.C13', 'technique': 'bounded-exhaustive enumeration of parameter tuples (ties included) x abscissa lattices, operator pair grids and (e, ec) lattices against an independent reference',
     'level_text': 'Every branch constant of the 13 membership functions becomes lattice points at, just below and just above it, for every ordered parameter tuple including all ties; the operators are decided on a 17x17 grid; the scheduled gains are compared with an independent mean-of-centres reference on a dense (e, ec) lattice for every operator and six rule bases.',
@@ -509,7 +515,7 @@ CHECKS['C08'] = {
     'title': 'LU, LDL^T and Cholesky factorizations reconstruct, solve and fail correctly', 'level': 'exploration', 'engine': 'grid', 'jobs': c08_jobs,
     'rule': ('bounded-exhaustive enumeration of matrices with an exact integer classification (fraction-free Bareiss minors in __int128) and __float128 reconstruction: LU with partial pivoting on ALL matrices of order 1..3 over {-2..2} (1.95 million of order 3), order 4 over {0,1} (quick) / {-1,0,1} (thorough, 43 million), '
              'and P*L*U families of order 5 (6 in thorough) under EVERY row permutation so that every pivot order occurs; LDL^T and Cholesky on ALL symmetric matrices of order 1..3 over {-2..2} and order 4 over {-1,0,1} ({-2..2} thorough), Cholesky also with the diagonal shifted by 3, plus named non-positive pivots at every position for orders 1..5; '
-             'duplicated rows with pivot values 1..100 (values whose reciprocal is inexact); Pascal, Wilkinson growth, second-difference and Vandermonde matrices of order 2..10; every matrix also under row / column (symmetric for LDL/LLT) scalings by 2^+-20 and 2^+-200 (2^+-60 for float) and uniform scalings of the whole matrix by 2^+-600 (2^+-100 float: the product of the pivots leaves the range, the log-determinant must stay finite); right-hand sides: unit vectors and all vectors over {-1,0,1}. On success: pivot vector is a permutation whose parity equals the reported sign, |multipliers| <= 1, strictly positive Cholesky diagonal, '
+             'duplicated rows with pivot values 1..100 (values whose reciprocal is inexact); Pascal, Wilkinson growth, second-difference and Vandermonde matrices of order 2..10; every matrix also under row / column (symmetric for LDL/LLT) scalings by 2^+-20 and 2^+-200 (2^+-60 for float) graded scalings (row/column exponents between -0.9 and +1 times 480 (56 for float), so that multipliers are tiny or huge while the products the factorization needs stay representable - this exposed a_real_ldl, fixed in f69d913), and uniform scalings of the whole matrix by 2^+-600 (2^+-100 float: the product of the pivots leaves the range, the log-determinant must stay finite); right-hand sides: unit vectors and all vectors over {-1,0,1}. On success: pivot vector is a permutation whose parity equals the reported sign, |multipliers| <= 1, strictly positive Cholesky diagonal, '
              'P*A - L*U (A - L*D*L^T, A - L*L^T) within the componentwise bound 4n eps (|L||U|), extractors match the packed storage, solve and both inverse variants satisfy the componentwise backward-error bound 16n eps (|L||U|)|x| and agree with each other within it, det within the perturbation bound of the exact determinant, exp(lndet) and sgndet consistent. '
              'On failure: the exact determinant (LU) / a leading principal minor (LDL, LLT) must vanish (be non-positive); conversely zero columns, equal rows and - wherever the arithmetic up to that point is exact (dyadic) - vanishing LDL pivots and non-positive Cholesky pivots must be reported as failure; every exactly nonsingular / regular / positive definite lattice matrix must succeed. Guard cells around every output.'),
     'assumptions': ['when earlier pivots are not dyadic an exactly vanishing later pivot may come out as rounding noise of either sign; failure is then neither required nor forbidden', 'libquadmath products of small integers and powers of two are exact'],
